@@ -28,7 +28,7 @@ COMPONENTS = {"real": ["reb_simulation_copy, reb_simulation_diff, reb_binary_dif
 ASSUMPTIONS = ["callbacks are re-attached to the copy before equality is asserted (the function-pointer flag is persisted)",
                "a mutation counts only if it is sticky (the serialiser recomputes some caches); array-sizing fields are only mutated downwards"]
 PROBES = ["with_variational", "with_megno", "unsynchronized_state", "with_tree", "with_display_settings", "mutations_sticky", "mutations_not_sticky",
-          "walltime_mutations_ignored", "pointer_mutations_ignored", "freed_copy_then_stepped_source", "tree_of_copy_checked", "live_arrays_compared", "copy_on_differently_filled_heap", "compact_system_merged_before_copy", "source_has_automatic_archive", "copy_outlived_its_origin"]
+          "walltime_mutations_ignored", "pointer_mutations_ignored", "freed_copy_then_stepped_source", "tree_of_copy_checked", "live_arrays_compared", "copy_on_differently_filled_heap", "compact_system_merged_before_copy", "source_has_automatic_archive", "copy_outlived_its_origin", "one_sided_difference"]
 
 # dtype codes of reb_binary_field_descriptor
 DT = dict(DOUBLE=0, INT=1, UINT=2, UINT32=3, INT64=4, UINT64=5, VEC3D=7, PARTICLE=8, POINTER=9, POINTER_ALIGNED=10, DP7=11, OTHER=12, END=13, PARTICLE4=15, POINTER_FIXED=16)
@@ -51,7 +51,7 @@ def generate(rng, tier, index):
             if c.chance(0.5) and integ != "bs":
                 cfg["var"] += [dict(order=1, tp=-1), dict(order=2, first=0, second=1, tp=-1)]
             cfg.pop("N_active", None)
-    cfg["alloc"] = c.choice([1, 2, 2])
+    cfg["alloc"] = c.choice([1, 2, 3])
     o = rng.derive("ops")
     warm = []
     for i in range(o.randint(0, 4)):
@@ -271,6 +271,32 @@ def execute(case, ctx):
         viol("heap", "heap corruption after freeing the copy", a)
         return result()
     probe("freed_copy_then_stepped_source")
+    # ---- a difference that exists on ONE side only (a block of state the other simulation does not have at all) is reported whichever way round ----
+    ctx.op(107)
+    try:
+        with rb.quiet():
+            X = A.copy()
+            simgen.attach_callbacks(rebound, rb, X, cfg)
+            one_sided = None
+            if not rb.getf_ptr(A, "display_settings"):
+                L.reb_simulation_add_display_settings(ctypes.byref(X))
+                one_sided = "display_settings present in one simulation only"
+            elif A.N_var_config == 0 and A.N - A.N_var >= 2 and OPS.var_ok(X, X.integrator, None, current=True):
+                X.add_variation()
+                one_sided = "variational configuration present in one simulation only"
+            if one_sided:
+                e_ax, e_xa = (A == X), (X == A)
+                d_ax = L.reb_simulation_diff(ctypes.byref(A), ctypes.byref(X), 2)
+                d_xa = L.reb_simulation_diff(ctypes.byref(X), ctypes.byref(A), 2)
+        if one_sided:
+            probe("one_sided_difference")
+            if e_ax or e_xa or not d_ax or not d_xa:
+                viol("compare", "a block of state present in one simulation only is not reported (in at least one order of the operands)",
+                     "%s: A==X %s, X==A %s, diff(A,X) %d, diff(X,A) %d" % (one_sided, e_ax, e_xa, d_ax, d_xa), key="compare:missed:one-sided")
+                return result()
+        del X
+    except (rebound.Escape, rebound.NoParticles, rebound.Encounter, rebound.Collision, rebound.GenericError, RuntimeError, AttributeError):
+        pass
     # ---- a copy of a copy stays usable after the intermediate object (the thing it was copied from) has been freed and its memory poisoned ----
     ctx.op(106)
     if not (uses_tree and cfg.get("collision", "none") != "none"):
